@@ -68,7 +68,6 @@ func constValue(c *ssa.Const) value {
 	panic(fmt.Sprintf("constValue: %s", c))
 }
 
-
 func fitsInt(x int64, sizes types.Sizes) bool {
 	intSize := sizes.Sizeof(types.Typ[types.Int])
 	if intSize < sizes.Sizeof(types.Typ[types.Int64]) {
@@ -78,7 +77,6 @@ func fitsInt(x int64, sizes types.Sizes) bool {
 	}
 	return true
 }
-
 
 func asInt64(x value) int64 {
 	switch x := x.(type) {
@@ -108,7 +106,6 @@ func asInt64(x value) int64 {
 	panic(fmt.Sprintf("cannot convert %T to int64", x))
 }
 
-
 func asUint64(x value) uint64 {
 	switch x := x.(type) {
 	case uint:
@@ -127,7 +124,6 @@ func asUint64(x value) uint64 {
 	panic(fmt.Sprintf("cannot convert %T to uint64", x))
 }
 
-
 func asUnsigned(x value) (value, bool) {
 	switch x := x.(type) {
 	case int:
@@ -145,7 +141,6 @@ func asUnsigned(x value) (value, bool) {
 	}
 	panic(fmt.Sprintf("cannot convert %T to unsigned", x))
 }
-
 
 func zero(t types.Type) value {
 	switch t := t.(type) {
@@ -240,7 +235,6 @@ func zero(t types.Type) value {
 	}
 	panic(fmt.Sprint("zero: unexpected ", t))
 }
-
 
 func cbinop(op token.Token, t types.Type, x, y value) value {
 	switch op {
@@ -638,7 +632,6 @@ func cbinop(op token.Token, t types.Type, x, y value) value {
 			return x.(string) <= y.(string)
 		}
 
-
 	case token.GTR:
 		switch x.(type) {
 		case int:
@@ -706,7 +699,6 @@ func cbinop(op token.Token, t types.Type, x, y value) value {
 	panic(fmt.Sprintf("invalid binary op: %T %s %T", x, op, y))
 }
 
-
 func widen(x value) value {
 	switch y := x.(type) {
 	case bool, int64, uint64, float64, complex128, string, unsafe.Pointer:
@@ -736,7 +728,6 @@ func widen(x value) value {
 	}
 	panic(fmt.Sprintf("cannot widen %T", x))
 }
-
 
 func cconv(t_dst, t_src types.Type, x value) value {
 	ut_src := t_src.Underlying()
@@ -965,7 +956,6 @@ func cconv(t_dst, t_src types.Type, x value) value {
 	panic(fmt.Sprintf("unsupported conversion: %s  -> %s, dynamic type %T", t_src, t_dst, x))
 }
 
-
 func foldLeft(op func(value, value) value, args []value) value {
 	x := args[0]
 	for _, arg := range args[1:] {
@@ -973,7 +963,6 @@ func foldLeft(op func(value, value) value, args []value) value {
 	}
 	return x
 }
-
 
 func min(x, y value) value {
 	switch x := x.(type) {
@@ -989,7 +978,6 @@ func min(x, y value) value {
 	}
 	return x
 }
-
 
 func max(x, y value) value {
 	switch x := x.(type) {
@@ -1008,9 +996,7 @@ func max(x, y value) value {
 
 // copied from $GOROOT/src/runtime/minmax.go
 
-
 type floaty interface{ ~float32 | ~float64 }
-
 
 func fmin[F floaty](x, y F) F {
 	if y != y || y < x {
@@ -1024,7 +1010,6 @@ func fmin[F floaty](x, y F) F {
 	return forbits(x, y)
 }
 
-
 func fmax[F floaty](x, y F) F {
 	if y != y || y > x {
 		return y
@@ -1037,7 +1022,6 @@ func fmax[F floaty](x, y F) F {
 	return fandbits(x, y)
 }
 
-
 func forbits[F floaty](x, y F) F {
 	switch unsafe.Sizeof(x) {
 	case 4:
@@ -1048,7 +1032,6 @@ func forbits[F floaty](x, y F) F {
 	return x
 }
 
-
 func fandbits[F floaty](x, y F) F {
 	switch unsafe.Sizeof(x) {
 	case 4:
@@ -1058,4 +1041,3 @@ func fandbits[F floaty](x, y F) F {
 	}
 	return x
 }
-
